@@ -560,6 +560,7 @@ func (r *RIB) addEntryInternal(ni string, op *spb.AFTOperation, oks, fails *[]*O
 		installStack[op.GetId()] = true
 		log.V(2).Infof("operation %d installed in RIB successfully", op.GetId())
 
+		verifPoint("rib.addEntry.installed")
 		r.rmPending(op.GetId())
 
 		*oks = append(*oks, &OpResult{
@@ -1288,6 +1289,7 @@ func (r *RIBHolder) AddIPv4(e *aftpb.Afts_Ipv4EntryKey, explicitReplace bool) (b
 		}
 	}
 
+	verifPoint("rib.AddIPv4.beforeDo")
 	if _, err := r.doAddIPv4(e.GetPrefix(), nr); err != nil {
 		return false, nil, err
 	}
@@ -1368,6 +1370,7 @@ func (r *RIBHolder) DeleteIPv4(e *aftpb.Afts_Ipv4EntryKey) (bool, *aft.Afts_Ipv4
 		}
 	}
 
+	verifPoint("rib.DeleteIPv4.beforeDo")
 	r.doDeleteIPv4(e.GetPrefix())
 
 	if r.postChangeHook != nil {
@@ -1446,6 +1449,7 @@ func (r *RIBHolder) AddIPv6(e *aftpb.Afts_Ipv6EntryKey, explicitReplace bool) (b
 		}
 	}
 
+	verifPoint("rib.AddIPv6.beforeDo")
 	if _, err := r.doAddIPv6(e.GetPrefix(), nr); err != nil {
 		return false, nil, err
 	}
@@ -1604,6 +1608,7 @@ func (r *RIBHolder) AddMPLS(e *aftpb.Afts_LabelEntryKey, explicitReplace bool) (
 		}
 	}
 
+	verifPoint("rib.AddMPLS.beforeDo")
 	if _, err := r.doAddMPLS(uint32(e.GetLabelUint64()), nr); err != nil {
 		return false, nil, err
 	}
@@ -1770,6 +1775,7 @@ func (r *RIBHolder) DeleteNextHopGroup(e *aftpb.Afts_NextHopGroupKey) (bool, *af
 		}
 	}
 
+	verifPoint("rib.DeleteNHG.beforeDo")
 	r.doDeleteNHG(e.GetId())
 
 	if r.postChangeHook != nil {
@@ -1840,6 +1846,7 @@ func (r *RIBHolder) DeleteNextHop(e *aftpb.Afts_NextHopKey) (bool, *aft.Afts_Nex
 			return false, nil, nil
 		}
 	}
+	verifPoint("rib.DeleteNH.beforeDo")
 	r.doDeleteNH(e.GetIndex())
 
 	if r.postChangeHook != nil {
@@ -1933,6 +1940,7 @@ func (r *RIBHolder) AddNextHopGroup(e *aftpb.Afts_NextHopGroupKey, explicitRepla
 		}
 	}
 
+	verifPoint("rib.AddNHG.beforeDo")
 	if _, err := r.doAddNHG(e.GetId(), nr); err != nil {
 		return false, nil, err
 	}
@@ -2046,6 +2054,7 @@ func (r *RIBHolder) AddNextHop(e *aftpb.Afts_NextHopKey, explicitReplace bool) (
 		}
 	}
 
+	verifPoint("rib.AddNH.beforeDo")
 	if _, err := r.doAddNH(e.GetIndex(), nr); err != nil {
 		return false, nil, err
 	}
@@ -2301,6 +2310,7 @@ func (r *RIBHolder) GetRIB(filter map[spb.AFTType]bool, msgCh chan *spb.GetRespo
 			case <-stopCh:
 				return nil
 			default:
+				verifPoint("rib.GetRIB.emit")
 				p, err := ConcreteIPv4Proto(e)
 				if err != nil {
 					return status.Errorf(codes.Internal, "cannot marshal IPv4Entry for %s into GetResponse, %v", pfx, err)
@@ -2389,6 +2399,7 @@ func (r *RIBHolder) GetRIB(filter map[spb.AFTType]bool, msgCh chan *spb.GetRespo
 			case <-stopCh:
 				return nil
 			default:
+				verifPoint("rib.GetRIB.emit")
 				p, err := ConcreteNextHopProto(e)
 				if err != nil {
 					return status.Errorf(codes.Internal, "cannot marshal NextHopEntry for ID %d into GetResponse, %v", id, err)
@@ -2449,6 +2460,7 @@ func (r *RIB) Flush(networkInstances []string) error {
 		niR.mu.Lock()
 		defer niR.mu.Unlock()
 
+		verifPoint("rib.Flush.locked")
 		for p, entry := range niR.r.Afts.Ipv4Entry {
 			referencedRIB, err := r.refdRIB(niR, entry.GetNextHopGroupNetworkInstance())
 			switch {
